@@ -14,14 +14,16 @@ LEVEL = "exploration"
 RUNS = {"quick": 5000, "thorough": 30000}
 RULE = ("one seeded world (1-4 looms, 1-3 processes, 1-4 threads, ranks or not, shuffled physical ids) is written as 3-6 variants that differ "
         "only in which thread carries app_id, rank/nranks and each (possibly overlapping or repeated) slice of loom_cpus, and in directory "
-        "creation order; outputs must be byte-identical across variants and rows must follow the documented order; 35% of the worlds add "
+        "creation order and - in 40% of the variants - in the names of the loom/proc/thread directories (ids come from the metadata, so a renamed "
+        "directory only changes the enumeration order); outputs must be byte-identical across variants and rows must follow the documented order; 35% of the worlds add "
         "one contradiction (different app id / rank / nranks inside a process, one CPU index with two physical ids and vice versa, duplicate "
         "TID, loom without CPUs or with a missing CPU index, process without app id) which must end in exit status 1 with a diagnostic; distinct = hash of (world, "
         "distributions); non-trivial = >= 2 threads in some process or loom so that a carrier choice exists")
 REAL = ["ovniemu (src/emu/**: system.c, loom.c, proc.c, thread.c, cpu.c) built from /repo's working tree"]
 STUB = ["libovni replaced by the independent trace writer sim/tracefmt.py"]
 ASSUMPTIONS = ["equal ranks are not among the statement's contradictions: such traces are emulated and ordered by (rank, PID) and (minimum rank, loom name)",
-               "partial rank information inside a loom is not in the statement's list of contradictions and is not generated"]
+               "partial rank information inside a loom (6% of the ranked multi-process worlds) is not in the statement's list of contradictions, so no "
+               "particular verdict is demanded: only that the verdict and the outputs are the same for every distribution, creation order and directory naming"]
 
 
 def gen(rng, tier, idx):
@@ -35,6 +37,14 @@ def gen(rng, tier, idx):
             rd = rng.derive("dup-rank-which")
             a, b = rd.sample(ranked, 2)
             b["rank"] = a["rank"]
+    rp = rng.derive("partial-rank")
+    if rp.chance(6):
+        cands = [l for l in desc["looms"] if len(l["procs"]) >= 2 and all(p["rank"] is not None for p in l["procs"])]
+        if cands:
+            l = rp.choice(cands)
+            for p in rp.sample(l["procs"], rp.randint(1, len(l["procs"]) - 1)):
+                p["rank"] = p["nranks"] = None
+            desc["partial_rank"] = True
     rv = rng.derive("variants")
     nvar = rv.randint(3, 6) if tier == "thorough" else rv.randint(3, 4)
     fault = None
@@ -175,6 +185,35 @@ class DupStream(tf.Stream):
     pass
 
 
+def alias_paths(streams, rng):
+    """Same streams, other directory names: the ids of looms, processes and threads come from the metadata, so renaming the
+    directories changes nothing but the order in which the emulator enumerates (and sorts) the streams."""
+    names = {}
+
+    def comp(kind, key, pool):
+        if (kind, key) not in names:
+            names[(kind, key)] = None
+            pool.append((kind, key))
+    pool = []
+    for s in streams:
+        rel = s.relpath.split("/")
+        for depth, c in enumerate(rel):
+            comp(depth, "/".join(rel[:depth + 1]), pool)
+    ks = list(range(len(pool)))
+    rng.shuffle(ks)
+    style = rng.choice(["%03d", "x%d", "loom.%d"])
+    for (kind, key), k in zip(pool, ks):
+        names[(kind, key)] = style % k
+    out = []
+    for s in streams:
+        rel = s.relpath.split("/")
+        new = "/".join(names[(d, "/".join(rel[:d + 1]))] for d in range(len(rel)))
+        a = copy.copy(s)
+        a.__class__ = type("Aliased", (s.__class__,), {"relpath": property(lambda self_, new=new: new)})
+        out.append(a)
+    return out
+
+
 def run(case, ctx):
     w = mgen.build_world(case["world"])
     m = W.Machine(w)
@@ -190,6 +229,10 @@ def run(case, ctx):
             "sample": {"world": w.describe(), "variants": len(case["vseeds"]), "fault": case["fault"]}}
     outs = []
     fault_done = None
+    partial = bool(case["world"].get("partial_rank"))
+    refusals = []
+    if partial:
+        info["probes"]["loom with ranked and unranked processes"] = 1
     for vi, vs in enumerate(case["vseeds"]):
         rng = Rng(vs)
         metas = distribute(w, rng.derive("carriers"))
@@ -215,6 +258,10 @@ def run(case, ctx):
             streams.append(s)
         order = list(range(len(streams)))
         rng.derive("order").shuffle(order)
+        ra = rng.derive("alias")
+        if ra.chance(40):
+            streams = alias_paths(streams, ra)
+            info["probes"]["variant with renamed directories"] = info["probes"].get("variant with renamed directories", 0) + 1
         d = ctx.workdir()
         try:
             tdir = os.path.join(d, "ovni")
@@ -231,6 +278,9 @@ def run(case, ctx):
                                   "contradictory metadata (%s): ovniemu ended with status %s (%s), expected exit status 1 with a diagnostic%s"
                                   % (fault_done, status, verdict, tail), **info)
                 continue
+            if partial and status == 1 and err.strip():
+                refusals.append(vi)
+                continue
             if verdict != "accept":
                 return result(False, "valid-distribution-" + verdict.split(":")[0], None,
                               "consistent metadata distribution rejected (%s)%s" % (verdict, tail), **info)
@@ -239,7 +289,7 @@ def run(case, ctx):
                 p = os.path.join(tdir, fn)
                 if os.path.isfile(p) and fn.split(".")[-1] in ("prv", "pcf", "row"):
                     files[fn] = open(p, "rb").read()
-            if not outs:
+            if not outs and not partial:
                 try:
                     pvts = {"thread": Pvt(tdir, "thread"), "cpu": Pvt(tdir, "cpu")}
                 except (PrvError, OSError) as e:
@@ -256,6 +306,11 @@ def run(case, ctx):
             outs.append((vi, files))
         finally:
             ctx.cleanup(d)
+    if refusals and outs:
+        return result(False, "verdict-depends-on-distribution", None,
+                      "the same union of metadata (a loom with ranked and unranked processes) is refused in variants %s and emulated in variants %s, "
+                      "which differ only in the carriers of per-process attributes, creation order and directory names"
+                      % (refusals, [v for v, _ in outs]), **info)
     if len(outs) >= 2:
         v0, base = outs[0]
         for vi, files in outs[1:]:
